@@ -1,6 +1,8 @@
 //! Process warm-up: before any property is checked (or a saved case replayed), the other
 //! subsystems of the library are exercised once in this process: a short BER simulation with a real
-//! decoder, an encoder, the code tables, a pseudorandom construction, the parser, a girth search.
+//! decoder, an encoder, the code tables, a pseudorandom construction, the parser, a girth search,
+//! and a handful of callers' mistakes (a matrix with more rows than columns handed to the encoder,
+//! block lengths that do not divide, a frame of the wrong length), whose panics are caught.
 //! State that one subsystem leaves behind in the process (a global flag, a cache, a thread-local)
 //! is thereby in place when the checks start, as it is in a long-running application. Whatever the
 //! warm-up calls return, panic with, or fail to return is none of the running check's business: panics
@@ -8,7 +10,6 @@
 
 use ldpc_toolbox::decoder::factory::DecoderImplementation;
 use ldpc_toolbox::simulation::ber::BerTest;
-use ldpc_toolbox::simulation::factory::Ber;
 use ldpc_toolbox::simulation::modulation::{Bpsk, Psk8};
 use ldpc_toolbox::sparse::SparseMatrix;
 use std::sync::Once;
@@ -54,6 +55,45 @@ fn body() {
         let _ = h.girth();
         let _ = ldpc_toolbox::systematic::parity_to_systematic(&h);
     });
+    // callers' mistakes, each on its own (documented panics or errors; whatever happens is swallowed):
+    // a process in which some earlier call failed must serve the later, well-formed calls all the same
+    quiet(&mut || {
+        let mut tall = SparseMatrix::new(5, 4);
+        for i in 0..4 {
+            tall.insert(i, i);
+            tall.insert(i + 1, i);
+        }
+        let _ = ldpc_toolbox::encoder::Encoder::from_h(&tall);
+    });
+    quiet(&mut || {
+        let il = ldpc_toolbox::simulation::interleaving::Interleaver::new(3, false);
+        let _ = il.interleave(&ndarray::Array1::from_vec(vec![1u8, 2, 3, 4]));
+    });
+    quiet(&mut || {
+        let il = ldpc_toolbox::simulation::interleaving::Interleaver::new(4, true);
+        let _ = il.deinterleave(&[1.0f64, 2.0, 3.0]);
+    });
+    quiet(&mut || {
+        use ldpc_toolbox::simulation::modulation::Modulator;
+        let m = ldpc_toolbox::simulation::modulation::Psk8Modulator::new();
+        let bits = ndarray::Array1::from_vec(vec![ldpc_toolbox::gf2::GF2::default(); 4]);
+        let _ = m.modulate(&bits);
+    });
+    quiet(&mut || {
+        let pu = ldpc_toolbox::simulation::puncturing::Puncturer::new(&[true, false, true]);
+        let _ = pu.puncture(&ndarray::Array1::from_vec(vec![1u8, 2, 3, 4]));
+        let _ = pu.depuncture(&[1.0f64, 2.0, 3.0]);
+    });
+    quiet(&mut || {
+        let _ = SparseMatrix::from_alist("3 2\n1 1\n9 9 9\n");
+        let _ = "NoSuchDecoder".parse::<DecoderImplementation>();
+        let h = small_code();
+        let _ = ldpc_toolbox::systematic::parity_to_systematic(&SparseMatrix::new(3, 2));
+        let imp: DecoderImplementation = "Minstarapproxi8".parse().unwrap();
+        use ldpc_toolbox::decoder::factory::DecoderFactory;
+        let mut d = imp.build_decoder(h);
+        let _ = d.decode(&[1.0, -1.0], 3);
+    });
     quiet(&mut || {
         let _ = ldpc_toolbox::codes::dvbs2::Code::R1_4short.h();
         let conf = ldpc_toolbox::mackay_neal::Config { nrows: 6, ncols: 12, wr: 6, wc: 3, backtrack_cols: 0, backtrack_trials: 0, min_girth: Some(4), girth_trials: 2, fill_policy: ldpc_toolbox::mackay_neal::FillPolicy::Uniform };
@@ -64,11 +104,16 @@ fn body() {
 pub fn warm_process() {
     WARM.call_once(|| {
         let (tx, rx) = std::sync::mpsc::channel();
+        // the mistakes made on purpose panic: keep them off stderr
+        let prev = std::panic::take_hook();
+        std::panic::set_hook(Box::new(|_| {}));
         let _ = std::thread::Builder::new().name("warm-up".into()).spawn(move || {
             body();
             let _ = tx.send(());
         });
-        if rx.recv_timeout(Duration::from_secs(20)).is_err() {
+        let finished = rx.recv_timeout(Duration::from_secs(20)).is_ok();
+        std::panic::set_hook(prev);
+        if !finished {
             eprintln!("vcheck: process warm-up did not finish within 20 s (its thread is left behind)");
         }
     });
